@@ -964,6 +964,61 @@ fn run_b(case: &str, st: &mut Stats) -> Outcome {
         let rs: Vec<String> = rows.iter().map(|(v, l, h)| format!("{v},{},{}", show_ptr(l), show_ptr(h))).collect();
         out.push(format!("{};{}", rs.join(" "), show_ptr(&root)));
     }
+    // diagrams from other producers of BddPtr (oracle only): top-down decision-DNNFs of a CNF
+    // derived from the program (both stores; their nodes are not in ROBDD normal form: (v, T, F),
+    // complemented high edges) and hand-built nodes; the JSON must denote what the pointer denotes
+    {
+        use rsdd::builder::decision_nnf::{DecisionNNFBuilder, SemanticDecisionNNFBuilder, StandardDecisionNNFBuilder};
+        use rsdd::builder::TopDownBuilder;
+        use rsdd::repr::{BddNode, Cnf, DDNNFPtr, Literal, VarLabel, VarOrder};
+        let mut check_ptr = |what: &str, p: BddPtr, fails: &mut Vec<String>| {
+            let js = serde_json::to_string(&BDDSerializer::from_bdd(p)).unwrap();
+            let v: Value = serde_json::from_str(&js).unwrap();
+            let (rows, root) = read_bdd_json(&v);
+            for a in 0..1usize << nv.max(3) {
+                let got = eval_bdd_table(&rows, &root, a);
+                if got != Some(bddprog::eval_ptr(p, a)) {
+                    fails.push(format!("{what}: table evaluates to {got:?} under assignment {a:b}, the diagram to {}", bddprog::eval_ptr(p, a)));
+                    break;
+                }
+            }
+        };
+        // clauses read off the program: one per operation, over the variables it mentions
+        let nvc = nv.max(3);
+        let mut cls: Vec<Vec<Literal>> = vec![];
+        for (k, op) in prog.ops.iter().enumerate() {
+            let t = format!("{op:?}");
+            let nums: Vec<u64> = t.split(|c: char| !c.is_ascii_digit()).filter(|x| !x.is_empty()).map(|x| x.parse::<u64>().unwrap() % nvc as u64).collect();
+            if nums.is_empty() { continue; }
+            let mut c: Vec<Literal> = vec![];
+            for (j, v) in nums.iter().take(3).enumerate() {
+                if !c.iter().any(|l| l.label().value() == *v) {
+                    c.push(Literal::new(VarLabel::new(*v), (k + j + t.len()) % 2 == 0));
+                }
+            }
+            cls.push(c);
+            if cls.len() >= 6 { break; }
+        }
+        if !cls.is_empty() {
+            let cnf = Cnf::new(&cls);
+            let n2 = cnf.num_vars();
+            let sb = StandardDecisionNNFBuilder::new(VarOrder::linear_order(n2));
+            let d = sb.compile_cnf_topdown(&cnf);
+            check_ptr("top-down (standard store) diagram", d, &mut fails);
+            check_ptr("negated top-down (standard store) diagram", d.neg(), &mut fails);
+            let mb = SemanticDecisionNNFBuilder::<{ rsdd::constants::primes::U64_LARGEST }>::new(VarOrder::linear_order(n2));
+            let d2 = mb.compile_cnf_topdown(&cnf);
+            check_ptr("top-down (semantic store) diagram", d2, &mut fails);
+            st.bump("b_topdown_diagrams_serialised");
+        }
+        // hand-built nodes outside the normal form
+        let n0 = BddNode::new(VarLabel::new(1), BddPtr::PtrTrue, BddPtr::PtrFalse);
+        let n1 = BddNode::new(VarLabel::new(0), BddPtr::Compl(&n0), BddPtr::Reg(&n0));
+        let n2 = BddNode::new(VarLabel::new(2), BddPtr::Reg(&n1), BddPtr::Compl(&n1));
+        for (what, q) in [("(1 T F)", BddPtr::Reg(&n0)), ("!(1 T F)", BddPtr::Compl(&n0)), ("(0 !n0 n0)", BddPtr::Reg(&n1)), ("(2 n1 !n1)", BddPtr::Reg(&n2)), ("!(2 n1 !n1)", BddPtr::Compl(&n2))] {
+            check_ptr(&format!("hand-built diagram {what}"), q, &mut fails);
+        }
+    }
     if shared { st.bump("b_cases_with_shared_nodes") }
     st.bump(&format!("b_maxrows={}", if maxrows < 3 { "0-2" } else if maxrows < 8 { "3-7" } else { "8+" }));
     fails.truncate(5);
